@@ -117,6 +117,15 @@ func runC06(w *World, r *Report) {
 	ruleNilNil(w, r)
 	ruleNoFail(w, r, set)
 	ruleCondArg(w, r)
+	// the invariant-governed sites of the evaluators (operand stack, operand vectors) rest on the
+	// capacity rules of C09: a violation there is a panic here
+	ruleOrder(w, r)
+	kc, kn := ruleCheckConstants(w, r)
+	ruleWidth(w, r, kc, kn)
+	ruleGrow(w, r)
+	ruleStackClass(w, r)
+	ruleStackMax(w, r)
+	ruleStackRec(w, r)
 }
 
 // ---- R-NILNIL / R-NOFAIL / R-CONDARG -------------------------------------------
